@@ -361,6 +361,8 @@ class Vector():
 		# Python Date interceptors
 		if target_type is date:
 			def caster(x):
+				if isinstance(x, datetime):
+					return x.date()  # a datetime left inside a <date> vector would belie its dtype
 				if isinstance(x, date):
 					return x
 				return date.fromisoformat(x)
